@@ -448,6 +448,12 @@ func (l *Lexer) NextToken() token.Token {
 		}
 	}
 
+	if t.Type == "" {
+		// A character that starts no token here (a lone '|', '&', '^', '*', or ">>" / "<<" without '=')
+		// is an illegal token at this position, not a token without type and location
+		t = newToken(token.ILLEGAL, l.char, line, index)
+	}
+
 	l.readChar()
 	t.File = l.file
 
